@@ -39,7 +39,7 @@ def gen_options(rng):
     if rng.random() < 0.4:
         o['terminal_set'] = rng.sample(['A', 'D', 'O', 'K', 'Y', 'X', 'M'], rng.randint(1, 6))
     if rng.random() < 0.3:
-        o['regex'] = rng.sample(['A', 'D', '^A', 'D[0-9]+$', '[OK]', '^[^M]'], rng.randint(1, 2))
+        o['regex'] = rng.sample(['A', 'D', '^A', 'D[0-9]+$', '[OK]', '^[^M]', 'D|O|Y', '(A|K)[0-9]+$'], rng.randint(1, 2))
     return o
 
 
@@ -59,6 +59,24 @@ def label_lengths(struct, context_lengths):
         else:
             opts.append([0])
     return {sum(c) for c in itertools.product(*opts)}
+
+
+def expect_flags(rows, opts, context_lengths):
+    """for every row: does the structure pass every requested filter (computed from the property's text, not from edit_rules)"""
+    mn, mx = opts['min_length'], opts['max_length']
+    out = []
+    for s, _ in rows:
+        toks = re.findall('[A-Z][0-9]*', s)
+        lens = label_lengths(s, context_lengths)
+        ok = True
+        if (mn or mx) and lens is not None and any(L < mn or (mx and L > mx) for L in lens):
+            ok = False
+        if opts['terminal_set'] and any(t[0] not in opts['terminal_set'] for t in toks):
+            ok = False
+        if opts['regex'] and not all(re.search(r, s) for r in opts['regex']):
+            ok = False
+        out.append(ok)
+    return out
 
 
 def tree_digest(root, skip):
@@ -268,11 +286,20 @@ def run(ctx):
         except common.ImplFailure:
             raise
         greal += 1
+    # the recorded finding's own input, whatever the seed: a letter whose upper-casing is two characters under a `U` mask
+    kspec = {'terminals': {'A2': [['a\xdf', '1.0']], 'C2': [['LL', '0.5'], ['LU', '0.5']], 'K4': [['qwer', '1.0']], 'A1': [['x', '1.0']], 'C1': [['L', '1.0']]},
+             'grammar': [['A2K4A1', '0.5'], ['K4', '0.5']], 'omen_prob': [], 'prince': [], 'mode': 'dyadic', 'encoding': 'utf-8'}
+    viol += guess_level_case(kspec, {'min_length': 0, 'max_length': 7, 'terminal_set': False, 'regex': None}, rules_dir)
+    greal += 1
     cases += greal
     # CLI level: the same through edit_rules.py in the snapshot
     cli_runs = 0
     for i in range(ctx.scale(2, 10)):
         rows = gen_grammar(rng)
+        if i == 0:
+            # whatever the seed: structures that tell comma-separated regexes with alternations, anchors and groups apart
+            rows = [('A3O1', '0.25'), ('A3D2', '0.125'), ('O1A3', '0.125'), ('M', '0.1'), ('D2', '0.0625'), ('A4Y1', '0.0625'), ('K4', '0.0625'),
+                    ('X1A3', '0.0625'), ('D12O3A10', '0.0625'), ('Y1', '0.03125')]
         # the context-sensitive values of this ruleset (their lengths are what an `X1` label stands for)
         cvals = rng.sample(CONTEXT_VALUES, rng.randint(1, len(CONTEXT_VALUES)))
         ctx_lens = {len(v) for v in cvals}
@@ -303,6 +330,29 @@ def run(ctx):
                              'source_present': src_now is not None, 'target_present': cp_now is not None, 'rc': rc,
                              'witness': {'rows': rows, 'copy_onto_existing': True}})
                 break
+        # the options as typed: comma-separated regexes with alternations, anchors and groups, terminal sets in lower case,
+        # bounds given as strings.  The copy's grammar.txt must be the original minus exactly the structures failing a filter
+        typed = [(['--regex', 'A,D|O|Y'], {'regex': ['A', 'D|O|Y']}), (['--regex', 'D|O|Y'], {'regex': ['D|O|Y']}),
+                 (['--regex', '^A[0-9]+,[0-9]$'], {'regex': ['^A[0-9]+', '[0-9]$']}), (['--regex', '(A|D)[0-9],K|X|^M$'], {'regex': ['(A|D)[0-9]', 'K|X|^M$']}),
+                 (['--regex', '^(A|D),([0-9])$', '--max_length', '12'], {'regex': ['^(A|D)', '([0-9])$'], 'max_length': 12}),
+                 (['--terminal_set', 'a,d,o,m'], {'terminal_set': ['A', 'D', 'O', 'M']}),
+                 (['--terminal_set', 'A,K,X', '--regex', 'A|X', '--min_length', '3'], {'terminal_set': ['A', 'K', 'X'], 'regex': ['A|X'], 'min_length': 3})]
+        picks = typed if not ctx.quick else [typed[0], typed[(i * 2 + 1) % len(typed)], typed[(i * 2 + 2) % len(typed)]]
+        for argv, o in picks:
+            topts = dict({'min_length': 0, 'max_length': 0, 'terminal_set': False, 'regex': None}, **o)
+            tgt = name + 't'
+            tdir = os.path.join(snap, 'Rules', tgt)
+            if os.path.exists(tdir):
+                shutil.rmtree(tdir)
+            out, err, rc = common.run_cli('edit_rules.py', ['-r', name, '--copy', tgt] + argv, stdin='devnull')
+            cli_runs += 1
+            dist['cli_typed_options'] = dist.get('cli_typed_options', 0) + 1
+            gpath = os.path.join(tdir, 'Grammar', 'grammar.txt')
+            want = [f"{s}\t{p}" for (s, p), k in zip(rows, expect_flags(rows, topts, ctx_lens)) if k]
+            got = [l for l in open(gpath).read().split('\n') if l] if os.path.exists(gpath) else None
+            if rc != 0 or got != want or tree_digest(d, set()) != before:
+                viol.append({'property': 'C20', 'kind': 'cli-typed-options', 'argv': argv, 'rc': rc, 'kept': got if got is None else got[:8], 'expected': want[:8],
+                             'stderr': err.decode(errors='replace')[-200:], 'witness': {'rows': rows, 'argv': argv, 'options': topts, 'context_values': cvals, 'cli': True}})
     cases += cli_runs
     if ctx.driver_ok:
         out = common.run_driver(ops)
@@ -330,6 +380,19 @@ def replay(ctx, payload):
     if 'rows' not in w or 'options' not in w:
         return []
     rules_dir = common.scratch_dir('c20replay')
+    if w.get('cli'):
+        cvals = w.get('context_values') or CONTEXT_VALUES
+        spec = {'terminals': {'X1': [[v, '0.2'] for v in cvals], 'D1': [['1', '1.0']]}, 'grammar': [[s, p] for s, p in w['rows']], 'omen_prob': []}
+        common.install_ruleset(spec, 'c20r')
+        snap = common.snapshot()
+        tdir = os.path.join(snap, 'Rules', 'c20rt')
+        if os.path.exists(tdir):
+            shutil.rmtree(tdir)
+        out_, err_, rc = common.run_cli('edit_rules.py', ['-r', 'c20r', '--copy', 'c20rt'] + w['argv'], stdin='devnull')
+        gpath = os.path.join(tdir, 'Grammar', 'grammar.txt')
+        want = [f"{s}\t{p}" for (s, p), k in zip(w['rows'], expect_flags(w['rows'], w['options'], {len(v) for v in cvals})) if k]
+        got = [l for l in open(gpath).read().split('\n') if l] if os.path.exists(gpath) else None
+        return [{'kind': 'cli-typed-options', 'kept': got, 'expected': want}] if rc != 0 or got != want else []
     if 'spec' in w:
         return [{'kind': v['kind'], 'structure': v.get('structure')} for v in guess_level_case(w['spec'], w['options'], rules_dir)]
     cvals = w.get('context_values') or CONTEXT_VALUES
